@@ -862,3 +862,75 @@ def _strconv_formatuint(I, st, args):
 
 
 from . import reflectmodel  # noqa: E402  (registers the reflect models)
+
+
+# time (uninterpreted) ---------------------------------------------------------------------
+# time.Parse(layout, text) succeeds iff TimeOK(layout, text) and then yields the instant TimeW/TimeE(layout, text):
+# uninterpreted functions of the two texts, so equal texts give equal times and nothing else is known.
+TIME_MAXLEN = 48
+_TIMEF = {}
+
+
+def _time_funcs():
+    if not _TIMEF:
+        S = z3.BitVecSort(8 * TIME_MAXLEN)
+        L = z3.BitVecSort(8)
+        _TIMEF['ok'] = z3.Function('TimeOK', S, L, S, L, z3.BoolSort())
+        _TIMEF['w'] = z3.Function('TimeW', S, L, S, L, z3.BitVecSort(64))
+        _TIMEF['e'] = z3.Function('TimeE', S, L, S, L, z3.BitVecSort(64))
+        _TIMEF['z'] = z3.Function('TimeZoneOffset', z3.BitVecSort(64), z3.BitVecSort(64), z3.BitVecSort(64))
+    return _TIMEF
+
+
+def _enc_text(s):
+    if len(s) > TIME_MAXLEN:
+        raise Unsupported('time text longer than %d bytes' % TIME_MAXLEN)
+    bs = [tobv(b, 8) for b in s] + [bvval(0, 8)] * (TIME_MAXLEN - len(s))
+    return z3.Concat(*bs), bvval(len(s), 8)
+
+
+def time_ok_term(layout, text):
+    F = _time_funcs()
+    a, la = _enc_text(mkstr(layout) if isinstance(layout, (bytes, str)) else layout)
+    b, lb = _enc_text(mkstr(text) if isinstance(text, (bytes, str)) else text)
+    return F['ok'](a, la, b, lb)
+
+
+@model('time.Parse')
+def _time_parse(I, st, args):
+    layout, text = args
+    F = _time_funcs()
+    tt = 'time.Time'
+
+    def bad(st_):
+        return Tup((I.zero(tt), new_error(I, st_, 'time.Parse')))
+    if len(text) > TIME_MAXLEN or len(layout) > TIME_MAXLEN:
+        return bad(st)      # longer than any value of the layouts in use: a parse error
+    if concrete_str(layout) and bytes(layout) == b'Mon, 02 Jan 2006 15:04:05 -0700' and len(text) < 31:
+        return bad(st)      # every element of this layout has a fixed minimum width: shorter text cannot match
+    a, la = _enc_text(layout)
+    b, lb = _enc_text(text)
+    ok = F['ok'](a, la, b, lb)
+
+    def good(st_):
+        return Tup((Struct((F['w'](a, la, b, lb), F['e'](a, la, b, lb), None)), None))
+    return ('alts', [(ok, good), (Not(ok), bad)])
+
+
+@model('(time.Time).Equal')
+def _time_equal(I, st, args):
+    a, b = args
+    return mk_and([I.value_eq(a[0], b[0]), I.value_eq(a[1], b[1])])
+
+
+@model('(time.Time).IsZero')
+def _time_iszero(I, st, args):
+    a = args[0]
+    return mk_and([I.value_eq(a[0], 0), I.value_eq(a[1], 0)])
+
+
+@model('(time.Time).Zone')
+def _time_zone(I, st, args):
+    a = args[0]
+    F = _time_funcs()
+    return Tup((Str(), F['z'](tobv(a[0], 64), tobv(a[1], 64))))
